@@ -59,29 +59,29 @@ OWNER = 'tmgr.0000'
 
 # ------------------------------------------------------------------------------
 #
-class _Session(object):
+def _Session(reg):
+    """the real Session (constructor aside): the sandbox derivation which
+    `_assign_pilot` relies on is the repository's"""
+    from ..harness import RealSession
+    return RealSession('rp.session.verif', 'file://localhost/client', reg,
+                       os.getcwd())
 
-    def __init__(self, reg):
-        self.uid  = 'rp.session.verif'
-        self._uid = self.uid
-        self._reg = reg
 
-    def _get_logger(self, name, level=None, debug=None): return NullLog()
-    def _get_profiler(self, name): return NullProf()
+PSB = 'file://localhost/rsbox/radical.pilot.sandbox/rp.session.verif/%s/'
 
-    def _get_client_sandbox(self):          return 'file://localhost/client'
-    def _get_endpoint_fs(self, pilot):      return 'file://localhost/'
-    def _get_resource_sandbox(self, pilot): return 'file://localhost/rsbox'
-    def _get_session_sandbox(self, pilot):  return 'file://localhost/rsbox/sess'
-    def _get_pilot_sandbox(self, pilot):
-        return 'file://localhost/rsbox/sess/%s' % pilot['uid']
-    def _get_task_sandbox(self, task, pilot):
-        return 'file://localhost/rsbox/sess/%s/%s/' % (pilot['uid'],
-                                                      task['uid'])
+
+def task_sandbox_name(uid):
+    """sandbox named in the description of that task: derived from the uid, so
+    that every call site of task_doc() agrees; several tasks share a name"""
+    import zlib
+    return [None, None, None, None, 'shared_data', 'shared_data', 'sub/dir',
+            '/abs/sbox/of_tasks'][zlib.crc32(uid.encode()) % 8]
 
 
 def pilot_doc(pid, cores):
+    # as Pilot.as_dict() hands it to the task manager (sandboxes included)
     return {'uid': pid, 'type': 'pilot', 'state': rps.NEW,
+            'pilot_sandbox': PSB % pid,
             'description': {'resource': 'local.localhost', 'cores': cores,
                             'access_schema': 'local'}}
 
@@ -90,6 +90,8 @@ def task_doc(uid, pilot, cores):
     td = make_td(uid=uid, ranks=1, cores_per_rank=cores)
     if pilot:
         td.pilot = pilot
+    if task_sandbox_name(uid):
+        td.sandbox = task_sandbox_name(uid)
     td.verify()
     return {'uid': uid, 'type': 'task', 'state': rps.TMGR_SCHEDULING_PENDING,
             'origin': 'client', 'pilot': pilot or None,
@@ -266,12 +268,24 @@ class Run(object):
             if self.role.get(pid) != 'added':
                 self.viol('bound-to-pilot-not-added', '%s -> %s (role %s) in '
                           'step %s' % (uid, pid, self.role.get(pid), step))
-        exp = 'file://localhost/rsbox/sess/%s' % pid
-        if t.get('pilot_sandbox') != exp or \
-           not str(t.get('task_sandbox', '')).startswith(exp + '/') or \
+        # sandboxes: those of the bound pilot; the task's own below the
+        # pilot's (default: its uid; a relative name from the description) or
+        # the absolute path the description names
+        exp  = PSB % pid
+        name = task_sandbox_name(uid)
+        tsb  = exp + ('%s/' % (name or uid))
+        if name and name.startswith('/'):
+            tsb = 'file://localhost' + name
+        norm = lambda u: os.path.normpath(ru.Url(str(u)).path)
+        if norm(t.get('pilot_sandbox')) != norm(exp) or \
+           norm(t.get('task_sandbox')) != norm(tsb) or \
+           norm(t.get('task_sandbox_path')) != norm(tsb) or \
            t.get('client_sandbox') != 'file://localhost/client':
-            self.viol('wrong-sandboxes', '%s on %s: %s / %s' % (uid, pid,
-                      t.get('pilot_sandbox'), t.get('task_sandbox')))
+            self.viol('wrong-sandboxes', '%s on %s: pilot %s, task %s (%s), '
+                      'expected %s' % (uid, pid, t.get('pilot_sandbox'),
+                      t.get('task_sandbox'), t.get('task_sandbox_path'), tsb))
+        res.see('task_sandbox_kinds', 'default' if not name else
+                'absolute' if name.startswith('/') else 'named')
 
         if self.case['scheduler'] == 'backfilling' and not named:
             res.count('bf_forwards_checked')
@@ -540,6 +554,45 @@ class _YieldLock(object):
     def release(self):          return self._lock.release()
 
 
+def _judge_stuck_threads(res, threads, tag, ctx_):
+    """Threads which did not finish: a deadlock is decided from what they are
+    doing, not from the time that passed - all of them sit in a lock
+    acquisition of the scheduler's code and their stacks do not move between
+    two samples.  Anything else (a slow machine) is inconclusive."""
+    import sys
+    import time
+    import traceback
+
+    def sample():
+        frames = sys._current_frames()
+        out = dict()
+        for t in threads:
+            if t.is_alive() and t.ident in frames:
+                out[t.name] = [(f.filename, f.lineno, f.name) for f in
+                               traceback.extract_stack(frames[t.ident])]
+        return out
+
+    s1 = sample(); time.sleep(1.5); s2 = sample()
+    alive = [t for t in threads if t.is_alive()]
+
+    def in_lock(stack):
+        # innermost repository frame is a `with <lock>` statement, entered
+        # through the yield proxy or the lock itself
+        inner = stack[-1]
+        return inner[2] in ('__enter__', 'acquire') or 'threading' in inner[0]
+
+    if alive and s1 == s2 and len(s2) == len(threads) and \
+       all(in_lock(st) for st in s2.values()):
+        where = {n: ['%s:%d %s' % (os.path.basename(f), ln, fn)
+                     for f, ln, fn in st if '/radical/pilot/' in f][-3:]
+                 for n, st in s2.items()}
+        res.violation('%s/deadlock' % tag, 'both threads wait for a lock the '
+                      'other one holds: %s' % where, dict(ctx_, stacks=where))
+    else:
+        res.inconc('%s: threads still busy after the join budget (no deadlock pattern)'
+                   % tag)
+
+
 def gen_concurrent(rng, sched):
     return {'kind': 'concurrent', 'scheduler': sched,
             'seed': rng.randint(0, 2 ** 30),
@@ -631,15 +684,14 @@ def run_concurrent(ctx, res, case):
             except Exception as e:
                 errs.append('notify: %r' % e)
 
-        a = mt.Thread(target=worker,   name='work-loop')
-        b = mt.Thread(target=notifier, name='subscriber')
+        a = mt.Thread(target=worker,   name='work-loop',  daemon=True)
+        b = mt.Thread(target=notifier, name='subscriber', daemon=True)
         a.start(); b.start()
-        a.join(timeout=60); b.join(timeout=60)
+        a.join(timeout=20); b.join(timeout=2 if a.is_alive() else 20)
         res.count('concurrent_histories')
         ctx_ = {'case': case, 'errors': errs}
         if a.is_alive() or b.is_alive():
-            res.violation('concurrent/deadlock', 'threads did not finish',
-                          ctx_)
+            _judge_stuck_threads(res, [a, b], 'concurrent', ctx_)
             return
         # one more pass from the subscriber side, nothing else running
         fw = forwarded()
@@ -674,10 +726,125 @@ def run_concurrent(ctx, res, case):
         r.close()
 
 
+# ------------------------------------------------------------------------------
+# (c) early-bound tasks arrive on the work loop while the pilots they name are
+#     registered on the subscriber thread
+#
+def gen_early_race(rng, sched):
+    return {'kind': 'early_race', 'scheduler': sched,
+            'seed': rng.randint(0, 2 ** 30),
+            'n_pilots': rng.randint(1, 3),
+            'n_bulks': rng.randint(2, 6),
+            'pids': [], 'cores': {}, 'events': []}
+
+
+def run_early_race(ctx, res, case):
+    import time
+    import random
+    import threading as mt
+    from ..popsim import Perturb
+
+    wd   = ctx.workdir or os.getcwd()
+    rng  = random.Random(case['seed'])
+    pids = ['pilot.%04d' % i for i in range(case['n_pilots'])]
+    case = dict(case, pids=pids, cores={p: 4000 for p in pids})
+    pert = Perturb(case['seed'], 0.25,
+                   funcs=[m_tbase.TMGRSchedulingComponent.work,
+                          m_tbase.TMGRSchedulingComponent.control_cb])
+    r = Run(case, res, wd)
+    try:
+        comp, net = r.comp, r.net
+        comp._pilots_lock = _YieldLock(comp._pilots_lock, case['seed'],
+                                       '_pilots_lock')
+        ctl  = 'mem://c/%s' % rpc.CONTROL_PUBSUB
+        uids, errs = list(), list()
+        done = mt.Event()
+
+        def worker():
+            try:
+                n = 0
+                for b in range(case['n_bulks']):
+                    bulk = list()
+                    for _ in range(rng.randint(1, 4)):
+                        uid = 'e.%03d' % n; n += 1
+                        uids.append(uid)
+                        bulk.append(task_doc(uid, rng.choice(pids), 1))
+                    net.q_put('mem://c/%s' % rpc.TMGR_SCHEDULING_QUEUE,
+                              'default', bulk, who='driver')
+                    while net.q_len('mem://c/%s' % rpc.TMGR_SCHEDULING_QUEUE):
+                        comp.work_cb()
+                    time.sleep(rng.choice([0, 0.0005, 0.002]))
+            except Exception as e:
+                errs.append('work: %r' % e)
+            finally:
+                done.set()
+
+        def registrar():
+            rr = random.Random(case['seed'] + 1)
+            try:
+                for p in pids:
+                    time.sleep(rr.choice([0, 0.0005, 0.001, 0.003]))
+                    net.publish(ctl, rpc.CONTROL_PUBSUB, {'cmd': 'add_pilots',
+                                'arg': {'pilots': [pilot_doc(p, 4000)],
+                                        'tmgr': OWNER}}, who='driver')
+                    while net.pump(): pass
+            except Exception as e:
+                errs.append('control: %r' % e)
+
+        a = mt.Thread(target=worker,    name='work-loop',  daemon=True)
+        b = mt.Thread(target=registrar, name='subscriber', daemon=True)
+        a.start(); b.start()
+        a.join(timeout=10); b.join(timeout=2 if a.is_alive() else 10)
+        res.count('early_race_histories')
+        ctx_ = {'case': case, 'errors': errs}
+        if a.is_alive() or b.is_alive():
+            _judge_stuck_threads(res, [a, b], 'early-race', ctx_)
+            return
+        while net.pump(): pass
+        for e in errs:
+            res.violation('early-race/raised', e, ctx_)
+            return
+        for e in net.errors:
+            res.violation('early-race/callback-raised', e[2], ctx_)
+            return
+        fw = dict()
+        for ev in net.events('put', rpc.TMGR_STAGING_INPUT_QUEUE):
+            for t in ev['payload']:
+                fw.setdefault(t['uid'], list()).append(t.get('pilot'))
+        early = {t['uid']: pid for pid, ts in comp._early.items() for t in ts}
+        for uid in uids:
+            res.count('early_race_tasks_checked')
+            got = fw.get(uid, [])
+            if len(got) > 1:
+                res.violation('early-race/forwarded-twice', '%s: %s'
+                              % (uid, got), ctx_)
+                return
+            if not got:
+                res.violation('early-race/task-stuck', '%s names %s, which is '
+                              'added; the task was never forwarded (parked '
+                              'for: %s)' % (uid, early.get(uid, '?'),
+                                            early.get(uid)), ctx_)
+                return
+    finally:
+        pert.stop()
+        r.close()
+
+
 def run(ctx):
     res = Result()
+    rng = ctx.rng('early')
+    for i in range(ctx.n(320, 24000)):
+        case = gen_early_race(rng, 'round_robin' if i % 2 else 'backfilling')
+        try:
+            run_early_race(ctx, res, case)
+        except RuntimeError as e:
+            res.violation('history-stuck', repr(e), {'case': case})
+        res.evaluations += 1
+        if len(res.violations) > 2:
+            break
+
     rng = ctx.rng('conc')
-    for i in range(ctx.n(400, 12000)):
+    for i in range(ctx.n(400, 36000)):
         case = gen_concurrent(rng, 'round_robin' if i % 3 == 0
                                    else 'backfilling')
         try:
@@ -689,7 +856,7 @@ def run(ctx):
             break
 
     rng = ctx.rng('cases')
-    for i in range(ctx.n(5000, 150000)):
+    for i in range(ctx.n(5000, 450000)):
         case = gen_case(rng, 'round_robin' if i % 2 else 'backfilling')
         run_case(ctx, res, case)
         if len(res.violations) > 40:
@@ -699,6 +866,12 @@ def run(ctx):
 
 def replay(case, ctx):
     res = Result()
+    if case['case'].get('kind') == 'early_race':
+        for _ in range(40):
+            run_early_race(ctx, res, case['case'])
+            if res.violations:
+                break
+        return res
     if case['case'].get('kind') == 'concurrent':
         for _ in range(20):
             run_concurrent(ctx, res, case['case'])
